@@ -271,6 +271,7 @@ impl CaseKind for FwdCase {
                         let mags: Vec<f64> = if self.force_exact == Some(true) { vec![0.0; t.numel()] } else { t.mags() };
                         match diff_array(&a, &t.dims, &t.values(), &mags, exact) {
                             None => Outcome::pass(nontrivial, key, classes),
+                            Some(d) if d == UNDECIDABLE => Outcome::discard(UNDECIDABLE),
                             Some(d) => {
                                 let kind = if a.dimensions() != &t.dims[..] { "wrong-dimensions" } else { "value-mismatch" };
                                 Outcome::fail(kind, self.sig(kind), format!("{:?} on operand dims {:?}: {}", self.op, dims, d), key, classes)
@@ -392,6 +393,9 @@ impl CaseKind for GradCase {
                 }
                 (GradSlot::Known { v, m: mg }, Some(ga)) => {
                     if let Some(d) = diff_array(ga, &node.t.dims, v, mg, exact_case) {
+                        if d == UNDECIDABLE {
+                            return Outcome::discard(UNDECIDABLE);
+                        }
                         let kind = if ga.dimensions() != &node.t.dims[..] { "gradient-shape" } else { "gradient-value" };
                         return Outcome::fail(
                             kind,
